@@ -60,6 +60,104 @@ def outcome(thunk):
         return ("err", type(e).__name__)
 
 
+def _padded(docs):
+    """the documents with a trailing comment line each, so that all have the same number of bytes"""
+    size = max(len(t.encode()) for t in docs) + 2
+    out = []
+    for t in docs:
+        if not t.endswith("\n"):
+            t += "\n"
+        k = size - len(t.encode())
+        out.append(t + ("#" + "p" * (k - 2) + "\n" if k >= 2 else "\n" * k))
+    return out
+
+
+def _string_read(t):
+    fresh()
+    k, o = outcome(lambda: objectio.read_pil(t))
+    return (k, describe(o) if k == "ok" else None)
+
+
+def files_in_place(case, d):
+    """A document is what the FILE says at the time it is read.  The documents of the case (the document, the same system
+    with other concentrations, one document that declares its names with another meaning, the document again) are
+    written one after the other (i) to ONE path, rewritten in place with the same number of bytes and the same
+    modification time, (ii) under one relative name in different working directories; every read_pil(path, is_file=True)
+    (fresh session each) equals read_pil of the text written last."""
+    text = case["text"]
+    if not case.get("files", True):
+        return []
+    docs = [text]
+    if case.get("second"):
+        docs.append(case["second"]["text"])
+    docs += list(case.get("released_before") or [])[:1]
+    if len(docs) == 1:
+        # no relative given: the same document with every number changed in place (lengths, concentrations, rates)
+        alt = "".join({"1": "2", "2": "3", "5": "4", "7": "6"}.get(ch, ch) for ch in text)
+        if alt != text:
+            docs.append(alt)
+    docs.append(text)
+    if len(docs) < 3:
+        return []
+    docs = _padded(docs)
+    want = [_string_read(t) for t in docs[:-1]]
+    want.append(want[0])
+    if want[0] != ("ok", d):
+        return []                    # the padding comment changed the reading: not this statement's business
+    fails = []
+    when = 1600000000
+    cwd = os.getcwd()
+    top = tempfile.mkdtemp(prefix="c14files")
+    try:
+        for mode in ("in-place", "relative-name"):
+            for n, (t, w) in enumerate(zip(docs, want)):
+                if mode == "relative-name" and n >= 2:
+                    break
+                if mode == "in-place":
+                    path = os.path.join(top, "system.pil")
+                else:
+                    sub = os.path.join(top, "d%d" % n)
+                    os.mkdir(sub)
+                    os.chdir(sub)
+                    path = "system.pil"
+                with open(path, "w") as f:
+                    f.write(t)
+                os.utime(path, (when, when + 0.25 * (n % 4)))
+                fresh()
+                k, o = outcome(lambda: objectio.read_pil(path, is_file=True))
+                got = (k, describe(o) if k == "ok" else None)
+                o = None
+                if got != w:
+                    how = ("rewritten in place (same size, same second)" if mode == "in-place" else
+                           "of the same relative name in another working directory")
+                    detail = ""
+                    if got[0] == "ok" and w[0] == "ok":
+                        for f in ("domains", "strands", "complexes", "macrostates", "reactions"):
+                            if got[1][f] != w[1][f]:
+                                if isinstance(w[1][f], dict):
+                                    bad = [x for x in sorted(set(list(got[1][f]) + list(w[1][f])))
+                                           if got[1][f].get(x) != w[1][f].get(x)][:3]
+                                    detail = (f": field {f} at {bad}: read {[got[1][f].get(x) for x in bad]}, "
+                                              f"the file declares {[w[1][f].get(x) for x in bad]}")
+                                else:
+                                    detail = f": field {f}: read {got[1][f][:3]}, the file declares {w[1][f][:3]}"
+                                break
+                    else:
+                        detail = f": outcome {got[0]}, reading the text: {w[0]}"
+                    fails.append(f"file-reread-{mode}: read_pil(path, is_file=True) of file number {n} {how} differs from "
+                                 f"read_pil of the text it contains{detail}")
+                    break
+            os.chdir(cwd)
+            if fails:
+                break
+    finally:
+        os.chdir(cwd)
+        import shutil
+        shutil.rmtree(top, ignore_errors=True)
+    fresh()
+    return fails
+
+
 def check(case):
     text, exp, ignore, stmts = case["text"], case.get("expected"), case.get("ignore"), case.get("stmts")
     fails = []
@@ -236,6 +334,8 @@ def check(case):
             if (ka, da) != (kb, db):
                 fails.append(f"ignore: read_pil(text, ignore={ig}) differs from reading the document without those statements "
                              f"({da if ka == 'err' else 'dictionary'} vs {db if kb == 'err' else 'dictionary'})")
+    # documents read from files by path, rewritten between the reads
+    fails += files_in_place(case, d)
     return fails
 
 
